@@ -12,6 +12,9 @@ import (
 // Key is {client_addr}_{client_port}_{dest_addr}_{dest_port}_{incremental_counter}_{proto_ident}
 type requestResponseMatcher struct {
 	openMessagesMap *sync.Map
+	// registerMutex makes the look-up of the counterpart and the store of the new message
+	// one atomic step; otherwise both halves can miss each other and the pair is lost.
+	registerMutex sync.Mutex
 }
 
 func createResponseRequestMatcher() api.RequestResponseMatcher {
@@ -37,6 +40,8 @@ func (matcher *requestResponseMatcher) registerRequest(ident string, request *ht
 		},
 	}
 
+	matcher.registerMutex.Lock()
+	defer matcher.registerMutex.Unlock()
 	if response, found := matcher.openMessagesMap.LoadAndDelete(ident); found {
 		// Type assertion always succeeds because all of the map's values are of api.GenericMessage type
 		responseHTTPMessage := response.(*api.GenericMessage)
@@ -63,6 +68,8 @@ func (matcher *requestResponseMatcher) registerResponse(ident string, response *
 		},
 	}
 
+	matcher.registerMutex.Lock()
+	defer matcher.registerMutex.Unlock()
 	if request, found := matcher.openMessagesMap.LoadAndDelete(ident); found {
 		// Type assertion always succeeds because all of the map's values are of api.GenericMessage type
 		requestHTTPMessage := request.(*api.GenericMessage)
